@@ -33,15 +33,27 @@ class FormatSpec:
 RESERVED_NAMES = {'date', 'amount', 'location', 'description', '_', '*', 'field'}
 
 
+def _replacement_fields(text: str) -> list:
+    """Field names str.format looks up for `text`, those nested in a format spec included."""
+    names = []
+    for _, field_name, format_spec, _ in string.Formatter().parse(text):
+        if field_name is not None:
+            names.append(field_name)
+            if format_spec:
+                # {name:>{width}}: str.format expands the replacement fields of a format spec too
+                names.extend(_replacement_fields(format_spec))
+    return names
+
+
 def _template_fields(template: str) -> list:
     """Names that str.format(**captures) will look up when the template is expanded.
 
     Those are its replacement fields as str.format reads them: {name}, but also {name:>8},
-    {name!s}, { name } (blanks belong to the key), {name.attr}, {name[0]} and {} / {0}.
+    {name!s}, { name } (blanks belong to the key), {name.attr}, {name[0]}, {} / {0} and the
+    fields inside a format spec, {name:>{width}}.
     """
     try:
-        return [field_name for _, field_name, _, _ in string.Formatter().parse(template)
-                if field_name is not None]
+        return _replacement_fields(template)
     except ValueError as e:
         raise ValueError(f"Invalid description template '{template}': {e}")
 
